@@ -1980,6 +1980,8 @@ fn classes(case: &Case, env: &Env, rep: &mut CaseReport) {
     rep.nontrivial = contention && env.abort.is_none();
 }
 
+include!("c11/queued.rs");
+
 fn main() {
     let mut check = Check::new("C11", "exploration");
     install_hook();
@@ -1991,5 +1993,13 @@ fn main() {
     let rule = "case = 1-4 latch actors (thread tool-envelope run / scripted-provider run / plain session / pipes task; bash or shell alias; initial concurrent batch or issued while an earlier holder is held) + 0-3 non-latchable mutators (write, apply_patch, checkpoint create, checkpoint rewind; thread or plain; issued at start / while a holder is held / while a run is parked before its side-effects append) + 0-3 read-only probes (read, ls, grep, artifact_fetch; thread or plain) issued while a holder is held; 2-5 mutating actors in total. non-trivial = >=2 mutating actors contend while a latch is held: >=2 latch actors, or a mutator issued while a holder is held/parked (a latch actor holds until the harness releases it, so the competitor is necessarily pending during the hold); distinct by case hash";
     let n = check.cases(320, 4800);
     check.group("latch", rule, GroupOpts { cases: n, max_shrink_iters: 60, ..Default::default() }, case_strategy, run);
+    let n = check.cases(160, 4_000);
+    check.group(
+        "queued_task_cancel",
+        "a holder (a bash task, or the bash tool of a thread run) is in progress until the harness creates a release file; 1-3 tasks (bash / shell alias) are spawned behind it and queue; 75 % of them receive POST /tasks/{id}/cancel after 0-39 ms; the holder is released 60-199 ms later. Verdict from the markers every command appends to one file: nothing between A_start and A_end, no two queued tasks interleaved. non-trivial = at least one queued task was cancelled; distinct by case hash",
+        GroupOpts { cases: n, max_shrink_iters: 20, watchdog_s: 600, ..Default::default() },
+        q_case_strategy,
+        run_queued,
+    );
     check.finish();
 }
